@@ -15,6 +15,7 @@ RULE += ' Round 6: One-row ridges; seven-row ridges with vertical connection ran
 ASSUMPTIONS = ['ridges are 3 map rows thick with the maximum in the middle row (a one-row ridge of probability < 0.9 is eroded by the engine\'s own 3x3 smoothing)',
                'with end-point responses (overlapping one ridge pixel at each end) the ridge is at least 9 px long', 'expected end points ds*(x0-2), ds*(x1+2) within 1.5*ds; vertical position within 0.9*ds; heights within 0.5*ds',
                'lines of the two runs of the rotation clause are matched by nearest end points (the engine orders lines with random jitter)']
+RULE += ' Round 9: One-row ridges on the first and the last map row, 1.75-3 times the detection threshold.'
 N = {'quick': 340, 'thorough': 17000}
 CLASSES = ['maps', 'maps', 'maps_sloped', 'maps_endpoints', 'maps_many', 'detect_rot', 'detect_rot', 'maps_short', 'detect_columns', 'columns_separator', 'detect_adaptive', 'maps_parallel_sloped', 'maps_tiny_heights', 'maps_border', 'maps_one_row', 'maps_thick', 'maps_mixed_heights']
 REQUIRED = ['one_row_ridges_on_the_first_or_last_map_row', 'decodes_with_another_connection_range', 'ridges_with_negative_height_responses', 'one_row_ridges', 'tiny_height_outlines', 'parallel_sloped_ridges', 'border_ridges', 'repeated_decodes_of_one_array', 'adaptive_detections', 'adaptive_proposals', 'rotated_pages_with_sides_not_multiple_of_ds', 'separator_pages', 'column_pages', 'same_row_pairs', 'parse_calls', 'ridges_checked', 'sloped_ridges', 'endpoint_ridges', 'short_ridges', 'detect_pairs', 'rotated_lines_compared', 'rot1', 'rot2', 'rot3', 'regions_compared']
@@ -525,5 +526,4 @@ def check_separator(case, mon, ctx):
         regions = helpers.assign_lines_to_regions(b_list, h_list, t_list, regions)
     lines = [(r.id, l.id, np.round(np.asarray(l.baseline)[[0, -1]]).tolist()) for r in regions for l in r.lines]
     if len(lines) != n:
-        mon.violation('one-line-per-ridge', dict(w, where='after assigning the detected lines to the detected regions (as the layout extractor does)', text_lines=lines, regions=len(p_list)))RULE += ' Round 9: One-row ridges on the first and the last map row, 1.75-3 times the detection threshold.'
-
+        mon.violation('one-line-per-ridge', dict(w, where='after assigning the detected lines to the detected regions (as the layout extractor does)', text_lines=lines, regions=len(p_list)))
